@@ -284,6 +284,17 @@ def run(report, tier, only=None):
                     c = {"outer": o, "inner": i, "fill": f, "structure": "two_layers", "palettes": 1, "vb": "region"}
                     c.update(v)
                     cases.append(c)
+    if tier == "quick":
+        # directly nested transform paints (words of length 2) around the glyph and around the fill
+        for w in words(2):
+            if len(w) == 2:
+                cases.append({"outer": w, "inner": [], "fill": "solid", "structure": "two_layers", "palettes": 1, "vb": "region"})
+                cases.append({"outer": [], "inner": w, "fill": "lin", "structure": "two_layers", "palettes": 1, "vb": "region"})
+    else:
+        for w in words(2):
+            if len(w) == 2:
+                for f in ("lin", "rad"):
+                    cases.append({"outer": [], "inner": w, "fill": f, "structure": "two_layers", "palettes": 1, "vb": "region"})
     for pal in (1, 2):
         for vb in ("region", "box100"):
             cases.append({"version": 0, "palettes": pal, "vb": vb, "fill": "v0", "structure": "v0", "outer": [], "inner": []})
